@@ -285,7 +285,7 @@ def abstract(case, net, result):
         elif op.kind == "start_tls":
             sni = a.get("server_hostname")
             sni = {ORIGIN_HOST: "origin", PROXY_HOST: "proxy", SNI_HOST: "ext"}.get(sni, "other:" + str(sni))
-            offer = list(getattr(a.get("ssl_context"), "alpn", None) or [])
+            offer = list(a["alpn_at_call"]) if "alpn_at_call" in a else list(getattr(a.get("ssl_context"), "alpn", None) or [])
             alpn = "h1h2" if offer == ["http/1.1", "h2"] else ("h1" if offer == ["http/1.1"] else "other:" + ",".join(offer))
             rec = net.streams[op.sid]
             # which hop does this handshake secure?  the proxy hop iff nothing was tunnelled yet
